@@ -64,15 +64,16 @@ before `let tx = res.expect("receiving tx");`
 /*@ extract src/consensus/block_producer.rs :: fn apply_parent_ready
 props C10
 sig `oneshot::error::RecvError` => `RecvError`
-requires
-        // the ParentReady sender lives in the pool, which outlives the producer (the `expect`)
-        received is Ok,
 ensures
         // [C10.parent_ready_for_any_certified_block_is_applied] whatever block the pool reports as
         // the ready parent - also another block of the SAME slot as the optimistic parent (equivocating previous leader) -
         // the producer switches to it instead of crashing; the same block is a no-op
-        (received->Ok_0).1 == parent_block_id.1 ==> final(payload).parent == old(payload).parent,
-        (received->Ok_0).1 != parent_block_id.1 ==> final(payload).parent == Some(received->Ok_0),
+        (received is Ok && (received->Ok_0).1 == parent_block_id.1) ==> final(payload).parent == old(payload).parent,
+        (received is Ok && (received->Ok_0).1 != parent_block_id.1) ==> final(payload).parent == Some(received->Ok_0),
+        // [C10.dropped_parent_ready_sender_is_survived] the pool drops the sender when it prunes the window's slot (a leader
+        // lagging behind finalization): no crash, the slice keeps its parent (finding F16: the `expect` failed this
+        // obligation before fix 1fefaba)
+        received is Err ==> final(payload).parent == old(payload).parent,
         final(payload).data == old(payload).data,
 @*/
 
